@@ -1198,7 +1198,8 @@ def eval_double_case(ctx, case):
         elif case["op"] == "n":
             op = yastn.rand(cfg, legs=[pl, pl.conj()], n=cfg.sym.zero(), dtype=case["dtype"])
         else:
-            op = yastn.rand(cfg, legs=[pl, pl.conj()], n=tuple(-x for x in unit) if sym != "Z2" else unit, dtype=case["dtype"])
+            opn = {"U1": (-1,), "Z2": (1,), "U1xU1xZ2": (-1, 0, 1)}[sym]   # charge of an annihilation operator
+            op = yastn.rand(cfg, legs=[pl, pl.conj()], n=opn, dtype=case["dtype"])
         T0.set_operator_(op)
     if nsym:
         for axes in case["swaps"]:
@@ -1270,7 +1271,7 @@ def eval_double_case(ctx, case):
 def part_double(ctx):
     from ..core import time_limit, CaseTimeout
     rng = ctx.rng
-    n = 40 if ctx.quick else 400
+    n = 30 if ctx.quick else 400
     for _ in range(n):
         case = double_case(rng, ctx.quick)
         ctx.case(case)
